@@ -17,6 +17,10 @@ use std::io::Write;
 use std::panic::{catch_unwind, AssertUnwindSafe};
 use std::sync::atomic::Ordering::Relaxed;
 
+fn only_case(o: &u64) -> u64 {
+    *o
+}
+
 fn emit(j: J) {
     println!("{}", j.render());
     let _ = std::io::stdout().flush();
@@ -107,7 +111,11 @@ pub fn cmd_lockstep(a: &Args) -> i32 {
     let mut per_pair: BTreeMap<String, u64> = BTreeMap::new();
     let mut compared_records = 0u64;
     let mut samples = Vec::new();
-    let mut e = shard;
+    // a replayed case (--only) is executed whatever --execs / --shard say
+    let (mut e, execs) = match only {
+        Some(o) => (only_case(&o), only_case(&o) + 1),
+        None => (shard, execs),
+    };
     while e < execs {
         if only.map(|o| o != e).unwrap_or(false) {
             e += nshards;
@@ -380,7 +388,11 @@ pub fn cmd_multi(a: &Args) -> i32 {
     let mut per_kind: BTreeMap<String, u64> = BTreeMap::new();
     let mut samples = Vec::new();
     let kinds_ = ["slice", "vec_ref", "array_ref", "range", "range_into"];
-    let mut e = shard;
+    // a replayed case (--only) is executed whatever --execs / --shard say
+    let (mut e, execs) = match only {
+        Some(o) => (only_case(&o), only_case(&o) + 1),
+        None => (shard, execs),
+    };
     while e < execs {
         if only.map(|o| o != e).unwrap_or(false) {
             e += nshards;
@@ -1175,7 +1187,11 @@ pub fn cmd_leak(a: &Args) -> i32 {
     let mut per_kind: BTreeMap<String, u64> = BTreeMap::new();
     let mut samples = Vec::new();
     let mut sink = 0u64;
-    let mut e = shard;
+    // a replayed case (--only) is executed whatever --execs / --shard say
+    let (mut e, execs) = match only {
+        Some(o) => (only_case(&o), only_case(&o) + 1),
+        None => (shard, execs),
+    };
     while e < execs {
         if only.map(|o| o != e).unwrap_or(false) {
             e += nshards;
@@ -1737,7 +1753,11 @@ pub fn cmd_wrappers(a: &Args) -> i32 {
     let mut nontrivial = HashSet::new();
     let mut per_kind: BTreeMap<String, u64> = BTreeMap::new();
     let mut samples = Vec::new();
-    let mut e = shard;
+    // a replayed case (--only) is executed whatever --execs / --shard say
+    let (mut e, execs) = match only {
+        Some(o) => (only_case(&o), only_case(&o) + 1),
+        None => (shard, execs),
+    };
     while e < execs {
         if only.map(|o| o != e).unwrap_or(false) {
             e += nshards;
